@@ -5,6 +5,7 @@ import (
 	"math"
 	"math/big"
 	"regexp"
+	"sort"
 	"time"
 
 	"github.com/fxamacker/cbor/v2"
@@ -64,6 +65,115 @@ func sat(a, d int64) int64 {
 		return math.MinInt64
 	}
 	return a + d
+}
+
+// Dense (set by a harness for its thorough tier) makes RawValues enumerate wider neighbourhoods: every integer within
+// 3 of a bound and around the width boundaries 2^7..2^63, floats within 3 representable steps of a bound and at the
+// precision edges in three textual notations, every string over {a, b, e-acute} up to length 4, and all well-formed
+// unit strings of 1-3 components over a small count alphabet.
+var Dense bool
+
+func denseInts(mn, mx *int64) []int64 {
+	var v []int64
+	for _, b := range []*int64{mn, mx} {
+		if b != nil {
+			for d := int64(-3); d <= 3; d++ {
+				v = append(v, sat(*b, d))
+			}
+		}
+	}
+	for _, k := range []uint{7, 8, 15, 16, 31, 32, 52, 53, 62} {
+		p := int64(1) << k
+		v = append(v, p-1, p, p+1, -p-1, -p, -p+1)
+	}
+	v = append(v, math.MaxInt64, math.MaxInt64-1, math.MinInt64, math.MinInt64+1)
+	return v
+}
+
+func denseFloats(mn, mx *float64) []float64 {
+	var v []float64
+	for _, b := range []*float64{mn, mx} {
+		if b != nil {
+			lo, hi := *b, *b
+			for i := 0; i < 3; i++ {
+				lo, hi = math.Nextafter(lo, math.Inf(-1)), math.Nextafter(hi, math.Inf(1))
+				v = append(v, lo, hi)
+			}
+			v = append(v, *b-0.5, *b+0.5, *b*2, -*b)
+		}
+	}
+	for _, k := range []int{24, 31, 53, 62, 63, 64} {
+		p := math.Ldexp(1, k)
+		v = append(v, p, -p, p+1, p-1)
+	}
+	v = append(v, math.SmallestNonzeroFloat64, -math.SmallestNonzeroFloat64, math.MaxFloat64, -math.MaxFloat64, 1e-300, 0.1, 1.0/3)
+	return v
+}
+
+func denseStrings() []any {
+	alpha := []string{"a", "b", "é"}
+	out := []any{""}
+	level := []string{""}
+	for n := 0; n < 4; n++ {
+		var next []string
+		for _, p := range level {
+			for _, c := range alpha {
+				next = append(next, p+c)
+				out = append(out, p+c)
+			}
+		}
+		level = next
+	}
+	return out
+}
+
+// denseUnitStrings: every string of 1-3 strictly descending components over counts {0, 1, 59, 61} in the short and
+// the long-plural spelling, plus the same with a fractional base count.
+func denseUnitStrings(units string) []any {
+	u, ok := refUnitTable[units]
+	if !ok {
+		return nil
+	}
+	type un struct {
+		m     int64
+		names []string
+	}
+	var ladder []un
+	for m, ns := range u.mults {
+		ladder = append(ladder, un{m, ns})
+	}
+	sort.Slice(ladder, func(a, b int) bool { return ladder[a].m > ladder[b].m })
+	ladder = append(ladder, un{1, u.base})
+	if len(ladder) > 4 {
+		ladder = ladder[len(ladder)-4:]
+	}
+	counts := []string{"0", "1", "59", "61"}
+	var out []any
+	var rec func(from int, prefix string, comps int)
+	rec = func(from int, prefix string, comps int) {
+		if comps > 0 {
+			out = append(out, prefix)
+		}
+		if comps == 3 {
+			return
+		}
+		for i := from; i < len(ladder); i++ {
+			for _, c := range counts {
+				for ni, name := range []string{ladder[i].names[0], " " + ladder[i].names[len(ladder[i].names)-1] + " "} {
+					if ni == 1 && c != "59" {
+						continue // the long spelling once per unit
+					}
+					rec(i+1, prefix+c+name, comps+1)
+				}
+			}
+			if ladder[i].m == 1 {
+				rec(i+1, prefix+"1.5"+ladder[i].names[0], comps+1)
+				rec(i+1, prefix+"0.25", comps+1)
+			}
+		}
+	}
+	rec(0, "", 0)
+	return out
 }
 
 // IntBoundary returns the integers around the declared bounds plus the usual suspects.
@@ -358,8 +468,14 @@ func RawValues(s *Spec) []any {
 		} else {
 			ns = append(append([]int64{}, s.EnumI...), 0, 3)
 		}
+		if Dense {
+			ns = dedupeInts(append(ns, denseInts(s.Min, s.Max)...))
+		}
 		for _, n := range ns {
 			out = append(out, intReps(n)...)
+		}
+		if Dense {
+			out = append(out, denseUnitStrings(s.Units)...)
 		}
 		out = append(out, extremeNumbers()...)
 		// digit strings that other number syntaxes would read differently: leading zeros (octal elsewhere), base
@@ -379,6 +495,13 @@ func RawValues(s *Spec) []any {
 		}
 		if s.FMax != nil {
 			fs = append(fs, *s.FMax, math.Nextafter(*s.FMax, math.Inf(1)), *s.FMax+1)
+		}
+		if Dense {
+			fs = append(fs, denseFloats(s.FMin, s.FMax)...)
+			for _, f := range fs {
+				out = append(out, fmt.Sprintf("%e", f), fmt.Sprintf("%.3f", f))
+			}
+			out = append(out, denseUnitStrings(s.Units)...)
 		}
 		for _, f := range fs {
 			out = append(out, f, float32(f), fmt.Sprint(f))
@@ -400,6 +523,9 @@ func RawValues(s *Spec) []any {
 			lens = append(lens, *s.Max, *s.Max+1)
 		}
 		out = append(out, stringsOfLen(lens...)...)
+		if Dense {
+			out = append(out, denseStrings()...)
+		}
 		out = append(out, "b", "a\n", "é", "1", "true")
 		for _, n := range []int64{0, 1, 12, -3} {
 			out = append(out, intReps(n)...)
